@@ -46,6 +46,11 @@ def declare_param(self, name, t, st):
     v = Val(t, z3.Const(name, t.sort()))
     if t.mutable:
         st.assume(z3.And(v.z >= 0, v.z < st.next_ref))
+        if isinstance(t, Dict) and t.v.mutable:
+            # well-typed heap: the containers stored in a dictionary parameter are allocated objects of the pre-state
+            k = fresh("k", t.k.sort())
+            dom, vals = self.dom(st, v), self.dvals(st, v)
+            st.assume(z3.ForAll([k], z3.Implies(z3.Select(dom, k), z3.And(0 <= z3.Select(vals, k), z3.Select(vals, k) < st.next_ref))))
     self.inputs[name] = v
     return v
 
